@@ -438,6 +438,55 @@ package core
 //@   unclaimed #nil-deref@ see above
 //@   unclaimed #type-assert see above
 
+// ---------------------------------------------------------------- URL paths (C11): the same path twice, paths that differ only in a parameter name
+// dpath(d): the path a directive stands for (its own Path parameter or its URL ancestor's), a pure function of the
+// directive; lastOff(p): the prefix of a path parameter without its last segment (removeLastSegment, pure).
+//@ specfn dpath(d directive.Directive) string
+//@ func (directive.Directive).Path
+//@   trusted
+//@   pure
+//@   ensures isnil(ret1) ==> ret0 == dpath(d)
+//@ specfn lastOff(p catalog.Path) string
+//@ func removeLastSegment
+//@   trusted
+//@   pure
+//@   ensures ret == lastOff(p)
+
+// PathParameters returns the split of the path whatever it decides about it
+//@ func PathParameters
+//@   tag C11 C13 C01
+//@   ghostensures same(ret0, ppOf(path))
+
+// Every {name} of the path is registered under its prefix; a prefix that was registered before this call (and not
+// re-registered by an earlier parameter of the same path) with a different name is an error: "/cats/{id}" and
+// "/cats/{name}" cannot both be declared.
+//@ func (*JApiCore).checkSimilarPaths
+//@   tag C11 C01
+//@   requires core != nil && core.similarPaths != nil
+//@   modifies mapof(core.similarPaths)
+//@   ensures [C11] isnil(ret) ==> (forall i :: 0 <= i && i < len(pp) ==> has(core.similarPaths, lastOff(pp[i].path)))
+//@   ensures [C11] isnil(ret) ==> (forall i :: 0 <= i && i < len(pp) && old(has(core.similarPaths, lastOff(pp[i].path))) && (forall j :: 0 <= j && j < i ==> lastOff(pp[j].path) != lastOff(pp[i].path))
+//@                ==> old(core.similarPaths[lastOff(pp[i].path)]) == pp[i].parameter)
+//@   ensures [C11] forall k string :: old(has(core.similarPaths, k)) ==> has(core.similarPaths, k)
+//@   loop 1 invariant 0 - 1 <= rangeindex && rangeindex <= rangelen - 1 && rangelen == len(pp) && core.similarPaths == old(core.similarPaths)
+//@   loop 1 invariant forall i :: 0 <= i && i <= rangeindex ==> has(core.similarPaths, lastOff(pp[i].path))
+//@   loop 1 invariant forall k string :: old(has(core.similarPaths, k)) ==> has(core.similarPaths, k)
+//@   loop 1 invariant forall k string :: (forall j :: 0 <= j && j <= rangeindex ==> lastOff(pp[j].path) != k) ==> (has(core.similarPaths, k) == old(has(core.similarPaths, k)) && core.similarPaths[k] == old(core.similarPaths[k]))
+//@   loop 1 invariant forall i :: 0 <= i && i <= rangeindex && old(has(core.similarPaths, lastOff(pp[i].path))) && (forall j :: 0 <= j && j < i ==> lastOff(pp[j].path) != lastOff(pp[i].path))
+//@                ==> old(core.similarPaths[lastOff(pp[i].path)]) == pp[i].parameter
+//@   loop 1 decreases rangelen - rangeindex
+//@   loop 1 frame core.similarPaths
+
+// addURL: a URL whose path is already registered is rejected at its keyword; an accepted URL registers its path; no
+// path is ever taken off the table.
+//@ func (*JApiCore).addURL
+//@   tag C11 C01 C02
+//@   requires core != nil && DirWF(d) && core.uniqURLPath != nil && core.similarPaths != nil
+//@   ensures [C11] old(has(core.uniqURLPath, dpath(*d))) ==> ret != nil
+//@   ensures [C11] ret == nil ==> has(core.uniqURLPath, dpath(*d))
+//@   ensures [C11] forall k catalog.Path :: old(has(core.uniqURLPath, k)) ==> has(core.uniqURLPath, k)
+//@   ensures [C11] forall k catalog.Path :: has(core.uniqURLPath, k) && !old(has(core.uniqURLPath, k)) ==> k == dpath(*d)
+
 // ---------------------------------------------------------------- path parameters (C13: binding, in path order)
 // pathParameters is decided by the bounded stand-in of C13; here it is an assumed pure function of its argument (ppOf).
 //@ specfn ppOf(path string) []PathParameter
